@@ -910,6 +910,48 @@ func universe(rng *rand.Rand, cls string) (keys [][]byte, preload int) {
 				add(append(cp(p), randBytes(rng, rng.Intn(4), alpha)...))
 			}
 		}
+	case "batch":
+		// large snapshots for the batched snapshot iterators (batches of 32, 64, 128, ... keys): long keys
+		// first, short keys late (the reused resume-key buffer shrinks), keys that are proper prefixes of the
+		// keys that follow them, next bytes below and above whatever an earlier resume key left in the buffer
+		seen := map[string]bool{}
+		add := func(k []byte) {
+			if !seen[string(k)] {
+				seen[string(k)] = true
+				keys = append(keys, k)
+			}
+		}
+		hi := []byte{'0', '1', '2', '3', '4', '5', '6', '7', '8', '9', 'z', 0xff}
+		mid := []byte{0x00, '0', '5', 'z', 0xff}
+		kids := []byte{0x00, 0x01, '0', '1', '2', 0xfe}
+		nLong := 20 + rng.Intn(30)
+		for len(keys) < nLong {
+			k := append([]byte{'a'}, randBytes(rng, 2, hi)...)
+			add(append(k, bytes.Repeat([]byte{[]byte{'z', 0xff, 'q'}[rng.Intn(3)]}, 4+rng.Intn(6))...))
+		}
+		nMid := nLong + 20 + rng.Intn(110)
+		for len(keys) < nMid {
+			k := append([]byte{'b'}, randBytes(rng, 2+rng.Intn(2), mid)...)
+			add(k)
+			if rng.Intn(3) == 0 {
+				add(append(cp(k), kids[rng.Intn(len(kids))]))
+			}
+		}
+		total := 100 + rng.Intn(300)
+		for len(keys) < total {
+			stem := []byte{byte('c' + rng.Intn(8))}
+			if rng.Intn(3) != 0 {
+				stem = append(stem, mid[rng.Intn(len(mid))])
+			}
+			add(stem)
+			for _, c := range kids {
+				if rng.Intn(2) == 0 {
+					add(append(cp(stem), c))
+				}
+			}
+		}
+		rng.Shuffle(len(keys), func(i, j int) { keys[i], keys[j] = keys[j], keys[i] })
+		preload = len(keys)
 	case "fan":
 		// fan-out crossing the node sizes 4/16/48/256 below one inner node
 		fo := []int{3, 4, 5, 15, 16, 17, 18, 47, 48, 49, 50, 100, 255, 256}[rng.Intn(14)]
@@ -937,6 +979,8 @@ func lensFor(rng *rand.Rand, cls string) []int {
 		return []int{1, 2, 3, 1000 + rng.Intn(400), 2030 + rng.Intn(40), 4060 + rng.Intn(40), 4076, 4077, 8150 + rng.Intn(60), 12268, 300}
 	case "limits":
 		return []int{1, 2, 3, 5, 8, 13, 21, 34}
+	case "batch":
+		return []int{1, 1, 2, 2, 3}
 	}
 	return []int{1, 1, 2, 2, 2, 3, 3, 5, 8, 17}
 }
@@ -977,6 +1021,28 @@ func genSeq(rng *rand.Rand, id, cls string, nops int) {
 				rn.step(g.mutator(), stale())
 			}
 		}
+	}
+	if cls == "batch" {
+		// the snapshot is the preloaded base level; every siter also runs ForEachInSnapshotRange and
+		// BatchedSnapshotIter of GetSnapshot() on both buffers and compares them with the plain snapshot iterator
+		g.depth++
+		g.regs = append(g.regs, 0)
+		rn.step([]string{"staging"}, false)
+		for i := 0; i < 14; i++ {
+			lo, hi := "-", "-"
+			if rng.Intn(4) != 0 {
+				lo = g.bound()
+			}
+			if rng.Intn(3) == 0 {
+				hi = g.bound()
+			}
+			rn.step([]string{"siter", strconv.Itoa(i % 2), lo, hi}, false)
+			if i%5 == 4 {
+				rn.step(g.mutator(), stale()) // staged writes must not show up
+			}
+		}
+		rn.step([]string{"siter", "0", "-", "-"}, false)
+		rn.step([]string{"siter", "1", "-", "-"}, false)
 	}
 	if cls == "cp" {
 		// the F03b shape, embedded at a random depth
@@ -1172,7 +1238,7 @@ func main() {
 			n, nops   int
 		}{
 			{"small", 1100, 60}, {"prefix", 700, 60}, {"fan", 220, 40}, {"bigval", 260, 40}, {"limits", 300, 50},
-			{"cp", 500, 50}, {"f02", 200, 30},
+			{"cp", 500, 50}, {"f02", 200, 30}, {"batch", 24, 6},
 		}
 		for _, p := range plan {
 			for i := 0; i < p.n*scale; i++ {
